@@ -125,6 +125,16 @@ Theorem C18_nonnumeric_fallback_unfixed_refuted :
     /\ safe_is_version orc cont v = Ok (s2p "1.4").
 Proof. exact nonnumeric_fallback_unfixed_refuted. Qed.
 
+(* event_callback and persistence act through Gateway.alert (facts generated from
+   its AST): the callback is invoked iff one is configured, and with persistence
+   on every alert marks the network as changed - whether or not a callback is
+   configured - so the next (scheduled or final) save writes it. *)
+Theorem C18_alert_effect :
+  forall has_callback dirty : bool,
+    alert_model has_callback true dirty = (has_callback, true)
+    /\ alert_model has_callback false dirty = (has_callback, dirty).
+Proof. exact alert_effect. Qed.
+
 (* the generated tables are the ones the specification was written for, and the
    constructor examples of README.md / mqtt.py / main.py / async_main.py use
    documented keyword options only *)
@@ -185,4 +195,5 @@ Print Assumptions C18_version_floor.
 Print Assumptions C18_node_same_rule.
 Print Assumptions C18_nonnumeric_fallback.
 Print Assumptions C18_nonnumeric_fallback_unfixed_refuted.
+Print Assumptions C18_alert_effect.
 Print Assumptions C18_generated_matches_spec.
